@@ -21,26 +21,29 @@ import (
 // {UDP CON, UDP NON, DTLS CON, TCP} is enumerated completely through a real server-side
 // connection (the first 262144 run indices); later indices repeat random table cells.
 
-const c20Table = 4 * 256 * 256
+const c20Table = 3 * 4 * 256 * 256
+
+// the three ways the response writer offers to set a response
+var c20How = []string{"SetResponse", "SetMessage", "Message()"}
 
 func init() {
 	Register(&PropDef{
 		ID:    "C20",
 		Title: "No-Response suppression follows RFC 7967 for every value and code",
-		Rule: "run index i < 262144 enumerates (transport/type, option value 0..255 = every value the one-byte option can carry, response code 0..255) completely; the options that accompany No-Response (none, lower-numbered, unknown elective ones numbered above 258, both, a known option of illegal length that the decoder skips) rotate over the cells; each run sends the request (and, on datagram transports, a network duplicate of it) to a real connection whose handler calls SetResponse(code); " +
+		Rule: "run index i < 262144 enumerates (transport/type, option value 0..255 = every value the one-byte option can carry, response code 0..255) completely; the options that accompany No-Response (none, lower-numbered, unknown elective ones numbered above 258, both, a known option of illegal length that the decoder skips) rotate over the cells; each run sends the request (and, on datagram transports, a network duplicate of it) to a real connection whose handler sets the response in one of the three ways the response writer has - SetResponse(code), SetMessage(a message of that code), Message().SetCode(code) - ; only the first can refuse, all three are judged on the wire; scenario S-NORESP/blockwise: the block-wise layer's own 4.08 (a final block of an upload nobody started) and a two-block upload answered by the handler, with No-Response on every block; " +
 			"non-trivial = the option suppresses at least one class (value has bit 2, 8 or 16); distinct = distinct (transport, value, code) log hash",
-		Scenarios: []Scenario{{Name: "S-NORESP", Weight: 1, Run: c20Run}},
-		Quick:     c20Table,
-		Thorough:  c20Table + 500000,
+		Scenarios: []Scenario{{Name: "S-NORESP", Weight: 6, Run: c20Run}, {Name: "S-NORESP/blockwise", Weight: 1, Run: c20BlockwiseRun}},
+		Quick:     c20Table + 70000,
+		Thorough:  c20Table + 1500000,
 		ExhaustN:  c20Table,
 		Exhaust: func(idx int) ([]uint32, bool) {
 			if idx >= c20Table {
 				return nil, false
 			}
-			// draws of c20Run: scenario(1 option) , mode, transport/type, value, code
-			return []uint32{0, uint32(idx / 65536), uint32((idx / 256) % 256), uint32(idx % 256)}, true
+			// draws of c20Run: scenario, transport/type, value, code, way of setting
+			return []uint32{0, uint32(idx/65536) % 4, uint32((idx / 256) % 256), uint32(idx % 256), uint32(idx / (4 * 65536))}, true
 		},
-		Require: []string{"handler.retriedAfterRefusal", "company.0", "company.1", "company.2", "company.3", "company.4"},
+		Require: []string{"handler.retriedAfterRefusal", "how.SetResponse", "how.SetMessage", "how.Message()", "blockwise.incomplete.suppressed", "blockwise.incomplete.sent", "blockwise.upload.suppressed", "blockwise.upload.answered", "company.0", "company.1", "company.2", "company.3", "company.4"},
 		Assume: []string{
 			"specification function written from RFC 7967: class = code>>5; suppressed iff (class 2 and value&2) or (class 4 and value&8) or (class 5 and value&16)",
 			"nothing here depends on the schedule; the property is claimed for the wire-level consequence, which only an endpoint in a (simulated) network shows",
@@ -53,6 +56,8 @@ func c20Run(e *Env) {
 	kind := t.Choose(4) // 0 UDP CON, 1 UDP NON, 2 DTLS CON, 3 TCP
 	v := uint32(t.Choose(256))
 	code := byte(t.Choose(256))
+	how := t.Choose(3)
+	e.Probe("how." + c20How[how])
 	tr := []string{TrUDP, TrUDP, TrDTLS, TrTCP}[kind]
 	reqType := TCON
 	if kind == 1 {
@@ -69,7 +74,7 @@ func c20Run(e *Env) {
 
 	// in a third of the cells a handler whose response was refused tries again with 5.00 (what an application does
 	// when its first answer "fails"): the second attempt is judged on its own, and the response still belongs to the request
-	retry := (int(v)+int(code))%3 == 0
+	retry := (int(v)+int(code))%3 == 0 && how == 0
 	const retryCode = byte(0xa0)
 	retrySuppressed := v&16 != 0
 	var refusals, handlerRuns, retries, retryRefusals int
@@ -93,21 +98,56 @@ func c20Run(e *Env) {
 			}
 		}
 		e.mu.Unlock()
-		e.Notef("handler: SetResponse(%d.%02d) -> refused=%v retried=%v refused-again=%v", code>>5, code&31, err != nil, tried, err2 != nil)
+		e.Notef("handler: %s(%d.%02d) -> refused=%v retried=%v refused-again=%v", c20How[how], code>>5, code&31, err != nil, tried, err2 != nil)
 	}
+	body := []byte("body")
 	token := []byte{0x33, 0x44}
 	var w *CWorld
 	if IsDatagram(tr) {
 		cfg := SimUDPConfig(1000)
 		cfg.BlockwiseEnable = false
-		cfg.Handler = func(rw *responsewriter.ResponseWriter[*udpClient.Conn], _ *pool.Message) {
-			handle(func(c codes.Code) error { return rw.SetResponse(c, message.TextPlain, bytes.NewReader([]byte("body"))) })
+		cfg.Handler = func(rw *responsewriter.ResponseWriter[*udpClient.Conn], r *pool.Message) {
+			handle(func(c codes.Code) error {
+				switch how {
+				case 1:
+					m := rw.Conn().AcquireMessage(rw.Conn().Context())
+					m.SetCode(c)
+					m.SetToken(r.Token())
+					m.SetContentFormat(message.TextPlain)
+					m.SetBody(bytes.NewReader(body))
+					rw.SetMessage(m)
+					return nil
+				case 2:
+					rw.Message().SetCode(c)
+					rw.Message().SetContentFormat(message.TextPlain)
+					rw.Message().SetBody(bytes.NewReader(body))
+					return nil
+				}
+				return rw.SetResponse(c, message.TextPlain, bytes.NewReader(body))
+			})
 		}
 		w = NewCWorld(e, CWorldCfg{Transport: tr, UDP: cfg})
 	} else {
 		r := mux.NewRouter()
-		r.DefaultHandle(mux.HandlerFunc(func(rw mux.ResponseWriter, _ *mux.Message) {
-			handle(func(c codes.Code) error { return rw.SetResponse(c, message.TextPlain, bytes.NewReader([]byte("body"))) })
+		r.DefaultHandle(mux.HandlerFunc(func(rw mux.ResponseWriter, r *mux.Message) {
+			handle(func(c codes.Code) error {
+				switch how {
+				case 1:
+					m := rw.Conn().AcquireMessage(rw.Conn().Context())
+					m.SetCode(c)
+					m.SetToken(r.Token())
+					m.SetContentFormat(message.TextPlain)
+					m.SetBody(bytes.NewReader(body))
+					rw.SetMessage(m)
+					return nil
+				case 2:
+					rw.Message().SetCode(c)
+					rw.Message().SetContentFormat(message.TextPlain)
+					rw.Message().SetBody(bytes.NewReader(body))
+					return nil
+				}
+				return rw.SetResponse(c, message.TextPlain, bytes.NewReader(body))
+			})
 		}))
 		w = NewCWorld(e, CWorldCfg{Transport: tr, TCPOpts: []tcp.Option{options.WithMux(r), options.WithCloseSocket()}})
 	}
@@ -117,7 +157,7 @@ func c20Run(e *Env) {
 	e.Real("net/responsewriter", "message/noresponse")
 	e.Wait()
 	w.Pump()
-	e.Logf("case transport=%s type=%d no-response=%d code=%d.%02d (class %d) company=%d -> suppressed=%v", tr, reqType, v, code>>5, code&31, class, company, suppressed)
+	e.Logf("case transport=%s type=%d no-response=%d code=%d.%02d (class %d) company=%d how=%s -> suppressed=%v", tr, reqType, v, code>>5, code&31, class, company, c20How[how], suppressed)
 
 	var wire []*WMsg
 	w.OnRecv = func(m *WMsg) {
@@ -169,11 +209,15 @@ func c20Run(e *Env) {
 		e.Violate("C20.R0", "handler-not-invoked", "the request never reached the handler")
 		return
 	}
-	// R1
-	if suppressed && refused != runs {
+	// R1 (only SetResponse can refuse)
+	if how != 0 {
+		if refused != 0 {
+			e.Violate("C20.R1", "refusal-from-a-call-that-cannot-refuse", "%s reported a refusal", c20How[how])
+		}
+	} else if suppressed && refused != runs {
 		e.Violate("C20.R1", fmt.Sprintf("not-refused:class%d", class), "No-Response=%d marks class %d.xx as not of interest, but SetResponse(%d.%02d) was accepted", v, class, code>>5, code&31)
 	}
-	if !suppressed && refused != 0 {
+	if how == 0 && !suppressed && refused != 0 {
 		e.Violate("C20.R1", fmt.Sprintf("refused-although-of-interest:class%d", class), "No-Response=%d does not suppress class %d.xx, but SetResponse(%d.%02d) was refused", v, class, code>>5, code&31)
 	}
 	// R2 / R3 on the wire
@@ -218,7 +262,7 @@ func c20Run(e *Env) {
 	switch {
 	case suppressed:
 		if responses != 0 {
-			e.Violate("C20.R2", fmt.Sprintf("suppressed-response-on-wire:class%d", class), "a %d.%02d response was put on the wire %d times although No-Response=%d suppresses it", code>>5, code&31, responses, v)
+			e.Violate("C20.R2", fmt.Sprintf("suppressed-response-on-wire:class%d:%s", class, c20How[how]), "a %d.%02d response set with %s was put on the wire %d times although No-Response=%d suppresses it", code>>5, code&31, c20How[how], responses, v)
 		}
 		if IsDatagram(tr) && reqType == TCON && bareAcks != copies {
 			e.Violate("C20.R2", "confirmable-request-not-acknowledged", "%d copies of the confirmable request were delivered, %d bare acknowledgements seen", copies, bareAcks)
